@@ -89,7 +89,9 @@ fn add_pattern(gsb: &mut GlobSetBuilder, pattern: &str) -> Result<()> {
     let pattern: Cow<str> = if pattern.starts_with('/') {
         Cow::Borrowed(pattern)
     } else {
-        Cow::Owned(format!("**/{pattern}"))
+        // Start with the apath's leading slash, so that it can't be taken for part of a
+        // name by a character class at the start of the pattern, like `[!a-z]*`.
+        Cow::Owned(format!("/**/{pattern}"))
     };
     gsb.add(
         GlobBuilder::new(&pattern)
